@@ -740,3 +740,42 @@ def unroll_table_searches(tree: ast.Module) -> int:
     if t.n:
         ast.fix_missing_locations(tree)
     return t.n
+
+
+# ---------------------------------------------------------------------------------------------------------------------
+# logging statements
+
+
+_LOGGERS = {"log", "logger", "logging", "LOG", "LOGGER", "_log", "_logger"}
+_LOG_METHODS = {"debug", "info", "warning", "warn", "error", "exception", "critical", "log"}
+
+
+def _is_log_stmt(st) -> bool:
+    if not (isinstance(st, ast.Expr) and isinstance(st.value, ast.Call)):
+        return False
+    f = st.value.func
+    if not (isinstance(f, ast.Attribute) and f.attr in _LOG_METHODS and isinstance(f.value, ast.Name) and f.value.id in _LOGGERS):
+        return False
+    # the arguments must not do anything themselves (no calls, no walrus, no await / yield)
+    for a in list(st.value.args) + [k.value for k in st.value.keywords]:
+        for x in ast.walk(a):
+            if isinstance(x, (ast.Call, ast.NamedExpr, ast.Await, ast.Yield, ast.YieldFrom, ast.Lambda, ast.ListComp, ast.GeneratorExp, ast.DictComp, ast.SetComp)):
+                return False
+    return True
+
+
+def strip_logging(tree: ast.Module) -> int:
+    """Remove `log.debug("...", plain values)` statements: a message to a logger does not take part in what a function
+    computes, returns, reads or writes (log *configuration* - handlers, files - is a different call and stays)."""
+    n = 0
+    for node in ast.walk(tree):
+        for fld in ("body", "orelse", "finalbody"):
+            blk = getattr(node, fld, None)
+            if isinstance(blk, list) and blk and isinstance(blk[0], ast.stmt):
+                kept = [s for s in blk if not _is_log_stmt(s)]
+                if len(kept) != len(blk):
+                    n += len(blk) - len(kept)
+                    if not kept:
+                        kept = [ast.copy_location(ast.Pass(), blk[0])]
+                    setattr(node, fld, kept)
+    return n
